@@ -60,7 +60,8 @@ def cmd_confirm(sid):
         rca, outa = sh(f"git -C {wt} apply {d}/patch.diff")
         assert rca == 0, "patch does not apply: " + outa
         rc1, out1 = sh(f"/venv/bin/python {d}/demo.py {wt}", env=ENV)
-        rct, outt = sh(f"cd {wt} && /venv/bin/python -m pytest -q -p no:cacheprovider -n 6 --timeout=900 pint/testsuite 2>&1 | grep -E '^FAILED|passed|failed' | tail -8", env=ENV)
+        ENV2 = dict(ENV, XDG_CACHE_HOME=f"{wt}/.xdg_cache")     # a cache of its own for this worktree
+        rct, outt = sh(f"cd {wt} && /venv/bin/python -m pytest -q -p no:cacheprovider -n 6 --timeout=900 pint/testsuite 2>&1 | grep -E '^FAILED|passed|failed' | tail -8", env=ENV2)
         import re
         lines = outt.strip().splitlines()
         tail = lines[-1] if lines else ""
@@ -69,7 +70,7 @@ def cmd_confirm(sid):
         for nodeid in failed:      # the suite is order-dependent under xdist even on the pristine snapshot
             f = nodeid.split("::")[0]  # (test_multiplication_with_scalar relies on earlier parametrisations): re-run the FILE serially
             if f not in rerun:
-                r, o = sh(f"cd {wt} && /venv/bin/python -m pytest -q -p no:cacheprovider --timeout=900 '{f}' 2>&1 | tail -1", env=ENV)
+                r, o = sh(f"cd {wt} && /venv/bin/python -m pytest -q -p no:cacheprovider --timeout=900 '{f}' 2>&1 | tail -1", env=ENV2)
                 rerun[f] = o.strip()
         only_flaky = all(" passed" in v and "failed" not in v.replace("xfailed", "") for v in rerun.values())
         m = re.search(r"(\d+) passed", tail)
